@@ -16,7 +16,7 @@ from vlib.runner import Engine, Inconclusive, Violation
 PROPERTY = 'C17'
 RULE = (
     'pair (old configuration, new configuration or broken file) from a grammar, as real files: 1-2 neighbors, per neighbor a route set over a small universe with routes removed, added, '
-    'same prefix with changed attributes, same prefix with changed next hop, unchanged; neighbor parameters unchanged (reconfigure path) or changed (re-establish path); neighbor added / removed; '
+    'same prefix with changed attributes, same prefix with changed next hop, unchanged; neighbor parameters unchanged (reconfigure path) or changed (re-establish path: hold time, or an address family added to / removed from the neighbor); neighbor added / removed; '
     'broken variants: token deleted, brace dropped, unknown keyword, value out of range, a value that makes a parser raise something else than ValueError, file truncated at k, file missing, file is a directory; '
     'x session up or down at reload time x 0-3 API-announced routes x reload by signal flag or API command. '
     'Non-trivial = the pair has a same-prefix attribute or next-hop change, or the new file is broken, or the session was down during the reload'
@@ -49,7 +49,7 @@ def render(neighbors: list[dict], ribout: bool = True) -> str:
         body = nh.api_section(changes=True) + '\n  static {\n' + '\n'.join(f'    {route_line(*r)};' for r in nb['routes']) + '\n  }'
         text += (
             f'neighbor {peer["ip"]} {{\n  router-id 10.0.0.5;\n  local-address 127.0.0.1;\n  local-as 65000;\n  peer-as {peer["as"]};\n  hold-time {nb["hold"]};\n'
-            f'  {rib}\n  family {{\n    ipv4 unicast;\n    ipv6 unicast;\n  }}\n{body}\n}}\n'
+            f'  {rib}\n  family {{\n    ipv4 unicast;\n' + ('' if nb.get('v4only') else '    ipv6 unicast;\n') + f'  }}\n{body}\n}}\n'
         )
     return text
 
@@ -99,6 +99,16 @@ def cases(draw):
         new.append({'peer': nb['peer'], 'hold': draw(st.sampled_from([30, 30, 30, 45])), 'routes': draw(evolve(nb['routes']))})
     if n_old == 1 and draw(st.integers(0, 3)) == 0:
         new.append({'peer': 1, 'hold': 30, 'routes': draw(route_set())})
+    if draw(st.integers(0, 3)) == 0:
+        # the reload adds an address family to an existing neighbor (or takes one away): the old definition has IPv4 unicast only
+        which = draw(st.sampled_from(['added', 'added', 'removed']))
+        for side in (old, new) if which == 'added' else (new, old):
+            side[0]['v4only'] = side is (old if which == 'added' else new)
+        for nb in (old[0], new[0]):
+            if nb.get('v4only'):
+                nb['routes'] = [r for r in nb['routes'] if ':' not in PREFIXES[r[0]]]
+        if which == 'added' and not any(':' in PREFIXES[r[0]] for r in new[0]['routes']):
+            new[0]['routes'].append([4, draw(st.integers(1, 3)), draw(st.integers(0, 1))])
     api = [list(a) for a in draw(st.lists(st.tuples(st.integers(0, 2), st.integers(1, 3)), max_size=3, unique_by=lambda a: a[0]))]
     ribout = draw(st.sampled_from([True, True, False]))
     if not ribout:
@@ -106,6 +116,8 @@ def cases(draw):
         # only the path that keeps the session (neighbor definition unchanged) is in the domain for it
         for nb in new:
             nb['hold'] = 30
+        for nb in old + new:
+            nb.pop('v4only', None)
     session_up = draw(st.sampled_from([True, True, False])) if ribout else True
     return {
         'old': old,
@@ -312,7 +324,8 @@ def check(case: dict) -> dict:
             pass
 
     kind = case['break']
-    classes = [f'new:{kind or "valid"}', f'session-up:{case["session_up"]}', f'via:{case["via"]}', f'adj-rib-out:{case.get("ribout", True)}']
+    fam_change = any(bool(o.get('v4only')) != bool(n.get('v4only')) for o in case['old'] for n in case['new'] if o['peer'] == n['peer'])
+    classes = [f'new:{kind or "valid"}', f'session-up:{case["session_up"]}', f'family-set-changed:{fam_change}', f'via:{case["via"]}', f'adj-rib-out:{case.get("ribout", True)}']
     if out['reload_ok']:
         if kind in ('missing', 'directory'):
             raise Violation(f'reload:accepted-{kind}-file', 'reload reported success')
@@ -380,4 +393,4 @@ def check(case: dict) -> dict:
     return {'nontrivial': True, 'classes': classes}
 
 
-ENGINES = [Engine('reloads', cases, check, quick=40, thorough=800, batch=40)]
+ENGINES = [Engine('reloads', cases, check, quick=120, thorough=1500, batch=60)]
